@@ -75,6 +75,12 @@ def case_strategy(draw):
                     k = draw(st.sampled_from(['tcp', 'tcp', 'tcp', 'ipc', 'tcp_noport']))
                     if k == 'ipc':
                         nm_ = f'pipe{i}_{len(outs)}'
+                        others = [x for j, x in enumerate(ids) if j != i and x]
+                        if others and draw(st.integers(0, 3)) == 0 and not any(o.startswith('ipc://') for o in outs):
+                            cand = draw(st.sampled_from(others))
+                            if cand not in used_ipc:
+                                nm_ = cand
+                        used_ipc.add(nm_)      # a pipe named like another filter's id (which --ipc would use for that filter's automatic output)
                         outs.append(f'ipc://{nm_}')
                     elif k == 'tcp_noport' and not has_default_user_port and all(abs(5550 - u) >= 2 for u in used_ports):
                         used_ports.add(5550)
